@@ -826,14 +826,16 @@ static void gen_expr(Node *node) {
       // from memory and merge it with a new value.
       Member *mem = node->lhs->member;
       println("  mov %%rax, %%rdi");
-      println("  mov $%ld, %%r9", (1L << mem->bit_width) - 1);
+      // (1L << 64) is undefined; a field may be as wide as its type.
+      long ones = (mem->bit_width == 64) ? -1L : (1L << mem->bit_width) - 1;
+      println("  mov $%ld, %%r9", ones);
       println("  and %%r9, %%rdi");
       println("  shl $%d, %%rdi", mem->bit_offset);
 
       println("  mov (%%rsp), %%rax");
       load(mem->ty);
 
-      long mask = ((1L << mem->bit_width) - 1) << mem->bit_offset;
+      long mask = ones << mem->bit_offset;
       println("  mov $%ld, %%r9", ~mask);
       println("  and %%r9, %%rax");
       println("  or %%rdi, %%rax");
